@@ -268,6 +268,7 @@ func C09(ctx *core.Ctx) int {
 		atomic.AddInt64(&invEvals, 1)
 	})
 	fileMode := c09FileMode(ctx, texts, inv)
+	histSeqs, histAnswers := formatHistories(ctx)
 	nd := 0
 	st.distinct.Range(func(k, v any) bool { nd++; return true })
 	cov := core.Coverage{
@@ -282,6 +283,7 @@ func C09(ctx *core.Ctx) int {
 		"texts_that_compile":              st.compiled,
 		"texts_with_diagnostics":          st.diagd,
 		"file_mode_runs_with_real_binary": fileMode,
+		"format_histories":                map[string]any{"sequences": histSeqs, "distinct_answers": histAnswers, "rule": "see C10: ordered pairs of near-identical texts formatted in one fresh process; the second answer = that of a process formatting it alone"},
 		"exhaustive":                      true,
 	}
 	ctx.Assumes = append(ctx.Assumes,
